@@ -46,12 +46,30 @@ def gen_rows(rng, n, cfg):
         r[IDX["geom1"]] = round(rng.uniform(0, 10), 2)
         r[IDX["geom2"]] = float(rng.randrange(0, 5))
         r[IDX["geom5"]] = float(rng.randrange(1, 1000000))  # a tag: makes rows recognisable
+        if cfg.get("nan_rate"):
+            for c in ("geom2", "subtomo_mean", "geom3", "geom4", "shift_z"):
+                if rng.random() < cfg["nan_rate"]:
+                    r[IDX[c]] = None  # a missing value (NaN) in a field no operation keys on
         rows.append(r)
     return rows
 
 
+def to_matrix(rows):
+    return np.array([[np.nan if v is None else v for v in r] for r in rows], dtype=np.float64).reshape(len(rows), 20)
+
+
+def norm_row(r):
+    """canonical form of a row: a missing value (NaN) and 0 are the same thing in cryoCAT - constructors,
+    fill() and the EM writer all turn NaN into 0 - so an operation that fills a hole with 0 has not changed
+    the field; what must never happen is a hole being filled with some *other* row's value"""
+    return [0.0 if (v is None or (isinstance(v, float) and v != v)) else float(v) for v in r]
+
+
 def f32rows(rows):
-    return np.array(rows, dtype=np.float64).reshape(len(rows), 20).astype(np.float32).astype(np.float64).tolist()
+    """what an EM file holds: single precision, missing values written as 0"""
+    m = to_matrix(rows)
+    m = np.where(np.isnan(m), 0.0, m)
+    return m.astype(np.float32).astype(np.float64).tolist()
 
 
 class C08(Property):
@@ -64,6 +82,7 @@ class C08(Property):
             "max_steps": rng.pick([5, 8, 12]),
             "max_rows": rng.pick([0, 2, 6, 20] if tier == "quick" else [0, 2, 6, 20, 60, 200]),
             "ntomo": rng.pick([1, 2, 4]), "nobj": rng.pick([1, 3, 6]), "dups": rng.chance(0.5),
+            "nan_rate": rng.pick([0.0, 0.0, 0.1, 0.3]),
             "env_rate": rng.pick([0.0, 0.05, 0.1]),
             "env_kinds": ["env.restart", "env.cwd", "env.foreign_put"],
             "fault_rate": 0.0, "fault_kinds": [],
@@ -155,11 +174,15 @@ class C08(Property):
             extra = [c for c in cols if c not in MOTL_COLS]
             raise Violation("columns", "missing:%s" % ",".join(missing) if missing else "extra:%s" % ",".join(map(str, extra)),
                             "%s: the table no longer has exactly the 20 fields (missing %r, extra %r)" % (what, missing, extra))
-        return np.column_stack([df[c].to_numpy(dtype=float) for c in MOTL_COLS]).reshape(len(df), 20).tolist() if len(df) else []
+        if not len(df):
+            return []
+        m = np.column_stack([df[c].to_numpy(dtype=float) for c in MOTL_COLS]).reshape(len(df), 20).tolist()
+        return [norm_row(r) for r in m]
 
     def compare(self, world, df, rows, what, ordered=True, ignore=()):
         world.oracle()
         got = self.actual_rows(df, what)
+        rows = [norm_row(r) for r in rows]
         if len(got) != len(rows):
             sig = "more_rows" if len(got) > len(rows) else "fewer_rows"
             raise Violation("row_count", sig, "%s: %d rows, the model has %d" % (what, len(got), len(rows)))
@@ -167,16 +190,19 @@ class C08(Property):
 
         def key(r):
             return tuple(v for j, v in enumerate(r) if j not in ign)
+
+        def skey(r):  # sortable (None-safe) version
+            return tuple((0, 0.0) if v is None else (1, v) for v in key(r))
         if ordered:
             for i, (g, w) in enumerate(zip(got, rows)):
                 if key(g) != key(w):
                     j = [jj for jj in range(20) if jj not in ign and g[jj] != w[jj]][0]
                     sig = "field:%s" % MOTL_COLS[j]
-                    if sorted(map(key, got)) == sorted(map(key, rows)):
+                    if sorted(map(skey, got)) == sorted(map(skey, rows)):
                         sig = "row_order"
                     raise Violation("row_values", sig, "%s: row %d field %s is %r, the model has %r" % (what, i, MOTL_COLS[j], g[j], w[j]))
         else:
-            if sorted(map(key, got)) != sorted(map(key, rows)):
+            if sorted(map(skey, got)) != sorted(map(skey, rows)):
                 raise Violation("row_values", "row_multiset", "%s: the set of rows differs from the model" % what)
         return got
 
@@ -193,16 +219,20 @@ class C08(Property):
         return fn(world, step)
 
     def put(self, world, step, name, obj, rows):
-        world.session(step["sess"])[name] = {"obj": obj, "rows": [list(r) for r in rows]}
+        world.session(step["sess"])[name] = {"obj": obj, "rows": [norm_row(r) for r in rows]}
 
     # ------------------------------------------------------------------ execution
     def op_new(self, world, step):
         rows = step["rows"]
-        df = pd.DataFrame(np.array(rows, dtype=float).reshape(len(rows), 20), columns=MOTL_COLS)
+        df = pd.DataFrame(to_matrix(rows), columns=MOTL_COLS)
         cls = cryomotl.Motl if step["wrap"] == "Motl" else cryomotl.EmMotl
         out = world.call(step["sess"], cls, df)
         if not out.ok:
             raise Violation("op_raised", "new:%s" % out.describe(), "%s(table of %d rows) raised %r" % (step["wrap"], len(rows), out.exc))
+        if any(v is None for r in rows for v in r):
+            world.probes["missing_values"] += 1
+        if step["wrap"] == "EmMotl":   # EmMotl's constructor documents filling missing values with 0
+            rows = [[0.0 if v is None else v for v in r] for r in rows]
         self.put(world, step, step["h"], out.value, rows)
         self.compare(world, out.value.df, rows, "new list")
         if not rows:
@@ -328,6 +358,7 @@ class C08(Property):
         world.oracle()
         ign = [IDX[x] for x in ignore]
         key = lambda r: tuple(v for j, v in enumerate(r) if j not in ign)
+        rows = [norm_row(r) for r in rows]
         best = {}
         for r in rows:
             k = r[d]
@@ -459,7 +490,7 @@ class C08(Property):
         ign = IDX["object_id"]
         key = lambda r: tuple(v for j, v in enumerate(r) if j != ign)
         olds = defaultdict(list)
-        for r in h["rows"]:
+        for r in map(norm_row, h["rows"]):
             olds[key(r)].append((r[IDX["tomo_id"]], r[ign]))
         fwd, back = {}, {}
         for g in got:
